@@ -244,3 +244,55 @@ def config_memoisation(ctx, L) -> list[dict]:
             keyed = any(isinstance(x, ast.Attribute) and x.attr == "language" for n in ast.walk(f.node) if isinstance(n, ast.If) for x in ast.walk(n.test))
             out.append(dict(rule=r.short, func=f, name=nm, bad=bool(stores) and not keyed, store=norm(stores[0]) if stores else ""))
     return out
+
+
+def loc_counters(ctx) -> list[dict]:
+    """The SRP lines-of-code counters of the three languages: does each count only lines whose strip() is non-empty?"""
+    repo = ctx.repo
+    out = []
+    cands = [f for f in repo.funcs_in("src.linters.srp.") if f.name in ("count_loc", "_node_loc") and f.cls is None or f.name == "_node_loc"]
+    seen = set()
+    for f in cands:
+        if f.qual in seen:
+            continue
+        seen.add(f.qual)
+        strips = [n for n in ast.walk(f.node) if isinstance(n, ast.Call) and call_name(n) in ("strip",)]
+        filt = [n for n in ast.walk(f.node) if isinstance(n, (ast.ListComp, ast.GeneratorExp)) and n.generators[0].ifs]
+        blank_filtered = bool(strips) and any(any(isinstance(x, ast.Call) and call_name(x) == "strip" for x in ast.walk(c)) or any(isinstance(x, ast.NamedExpr) for x in ast.walk(c)) for g in filt for c in g.generators[0].ifs)
+        raw_truthiness = any(isinstance(c, ast.Name) and isinstance(g.generators[0].target, ast.Name) and c.id == g.generators[0].target.id for g in filt for cond in g.generators[0].ifs for c in ([cond] + (cond.values if isinstance(cond, ast.BoolOp) else [])))
+        arithmetic_only = not filt
+        out.append(dict(func=f.qual.replace("src.", "", 1), loc=f.loc, ok=blank_filtered and not raw_truthiness and not arithmetic_only,
+                        detail="counts lines whose strip() is non-empty and not a comment" if blank_filtered and not raw_truthiness else ("end - start + 1: blank and comment lines count as code" if arithmetic_only else "the blank-line test is applied to the raw line, so whitespace-only lines count as code")))
+    return out
+
+
+def cached_content_readers(ctx) -> list[dict]:
+    """functools cache decorators on functions from which a file read is reachable (the result depends on file content,
+    the cache key does not)."""
+    repo, cg = ctx.repo, ctx.cg
+    READS = {"pathlib.Path.read_text", "pathlib.Path.read_bytes", "builtins.open", "pathlib.Path.open", "pathlib.Path.stat", "pathlib.Path.exists", "io.open"}
+    out = []
+    for f in repo.funcs.values():
+        decs = [d for d in f.decorators if any(t in d for t in ("lru_cache", "functools.cache", "cached_property")) or d == "cache"]
+        if not decs or not f.module.name.startswith("src."):
+            continue
+        pr = cg.reach([f.qual])
+        reads = sorted(q for q in pr if q in READS or q.replace("new:", "") in READS)
+        out.append(dict(func=f.qual.replace("src.", "", 1), loc=f.loc, decorator=decs[0], reads=reads))
+    return out
+
+
+def whole_tree_finders(ctx) -> list[dict]:
+    """Python `find_all_*` functions that take a parsed tree: they must enumerate with ast.walk(tree) (or a NodeVisitor),
+    not with a hand-written descent over selected fields."""
+    out = []
+    for f in sorted(ctx.repo.funcs.values(), key=lambda x: x.qual):
+        if not (f.module.name.startswith("src.linters.") and f.name.startswith("find_all_") and "python" in f.module.name):
+            continue
+        params = [a.arg for a in f.node.args.args if a.arg not in ("self", "cls")]
+        if not params:
+            continue
+        walks = [n for n in ast.walk(f.node) if isinstance(n, ast.Call) and dotted(n.func) == "ast.walk" and n.args and isinstance(n.args[0], ast.Name) and n.args[0].id == params[0]]
+        visits = [n for n in ast.walk(f.node) if isinstance(n, ast.Call) and (call_name(n) in ("visit", "generic_visit") or (call_name(n).startswith("find_all_") and n.args and isinstance(n.args[0], ast.Name) and n.args[0].id == params[0] and not (isinstance(n.func, ast.Attribute) and call_name(n) == f.name)))]
+        out.append(dict(func=f.qual.replace("src.", "", 1), loc=f.loc, ok=bool(walks or visits), detail="ast.walk(tree)" if walks else "NodeVisitor" if visits else "hand-written descent: nodes below unvisited fields (function bodies, if/try blocks) are never found"))
+    return out
